@@ -345,6 +345,9 @@ def run(prog, rep, tier, cfg):
     signed(prog, rep, X)
     # ---- (4) role binding of memory / storage / copy / hash / return instructions
     roles(prog, rep, X, impls)
+    # ---- error discipline: no Result produced in these crates is silently discarded
+    X.no_dropped_results('K14', 'results-not-discarded', ['fil_actor_evm', 'fil_actors_evm_shared'], 'no Result of a call is discarded')
+
 
 
 def source_calls(prog, f, op, depth=0, seen=None):
